@@ -517,6 +517,27 @@ def stream_fsm(ctx):
         paths.run(m, d, False)
         R.check(not d.bad, rule, f'bumble.avdtp.Stream.{name} | a refusal changes nothing', 'no path changes the stream state and then returns a reject (or the endpoint\'s verdict, which may be one)',
                 f'a path changes the stream state and then returns `{d.bad[0][1] if d.bad else ""}` (possibly a reject): the command is refused but the acceptor is already in the new state, the two ends disagree and later legal commands get BAD_STATE', p.loc(m))
+    # commands naming several end points are all-or-nothing as far as the stream states go: the validation loop, which runs
+    # before any stream is touched, refuses unless every named stream is in the state the command requires
+    for cmd in ('start', 'suspend'):
+        fn = p.find(f'bumble.avdtp.Protocol.on_{cmd}_command')
+        if fn is None:
+            R.bad(rule, f'bumble.avdtp.Protocol.on_{cmd}_command', 'anchor missing')
+            continue
+        loops = [l for l in fn.body if isinstance(l, ast.For) and 'acp_seids' in norm(l.iter)]
+        acting = [l for l in loops if any((dotted(c.func) or '').endswith(f'stream.on_{cmd}_command') for c in calls_in(l))]
+        validating = [l for l in loops if l not in acting and acting and fn.body.index(l) < fn.body.index(acting[0])]
+        states = set()
+        for l in validating:
+            for i in [x for x in ast.walk(l) if isinstance(x, ast.If) and any(isinstance(r_, ast.Return) and r_.value is not None and 'Reject' in norm(r_.value) for r_ in x.body)]:
+                for c in ast.walk(i.test):
+                    if isinstance(c, ast.Compare) and len(c.ops) == 1 and norm(c.left).endswith('stream.state'):
+                        if isinstance(c.ops[0], ast.NotEq):
+                            states |= {norm(c.comparators[0]).split('.')[-1]}
+                        elif isinstance(c.ops[0], ast.NotIn) and isinstance(c.comparators[0], (ast.Tuple, ast.List, ast.Set)):
+                            states |= {norm(e).split('.')[-1] for e in c.comparators[0].elts}
+        R.check(len(acting) == 1 and bool(validating) and states == REQUIRED_STATE[cmd], rule, f'bumble.avdtp.Protocol.on_{cmd}_command | all or nothing', f'every named stream is checked to be in {sorted(REQUIRED_STATE[cmd])} before the first one is touched',
+                f'{cmd.capitalize()} with several end points checks only that the streams exist (state test before acting: {sorted(states) or "none"}): when a later stream is in the wrong state the command is refused after earlier streams have already changed state', p.loc(fn))
     # a second Set Configuration for an endpoint in use is refused before a new stream replaces the live one
     psc = p.find('bumble.avdtp.Protocol.on_set_configuration_command')
     if psc is None:
